@@ -103,6 +103,45 @@ def check_link(c1, c2, time_axis, masked, units=("m", "m")):
     return bad
 
 
+def check_link_history(c1, c2, static):
+    """two publications and repeated pulls over a re-layout link: earlier results must stay intact, a static input must serve the
+    same correctly located data on every pull"""
+    g1, g2 = build(c1), build(c2)
+    a, shape1, _ = located_array(c1, False)
+    want, shape2, _ = located_array(c2, False)
+    bad = []
+    try:
+        if static:
+            out = fm.Output("o", fm.Info(time=None, grid=g1, units="m"), static=True)
+            inp = fm.Input("i", fm.Info(time=None, grid=g2, units="m"), static=True)
+        else:
+            out = fm.Output("o", fm.Info(time=T0, grid=g1, units="m"))
+            inp = fm.Input("i", fm.Info(time=T0, grid=g2, units="m"))
+        out >> inp
+        inp.ping()
+        inp.exchange_info()
+        if static:
+            out.push_data(a, None)
+            for k in range(3):
+                d = inp.pull_data(None)
+                if tuple(d.shape) != (1,) + shape2 or not np.allclose(d.magnitude[0], want):
+                    bad.append(("static_input_pull_%d_wrong" % k, f"{d.magnitude.tolist()}"))
+                    break
+        else:
+            out.push_data(a, T0)
+            out.push_data(a + 1000.0, T0 + H(1))
+            d0 = inp.pull_data(T0)
+            keep0 = d0.magnitude[0]
+            d1 = inp.pull_data(T0 + H(1))
+            if not np.allclose(d1.magnitude[0], want + 1000.0):
+                bad.append(("second_pull_wrong", ""))
+            if not np.allclose(keep0, want):
+                bad.append(("earlier_result_overwritten_by_later_pull", f"{np.asarray(keep0).tolist()}"))
+    except Exception as e:  # noqa
+        bad.append(("exception", f"{type(e).__name__}: {str(e)[:80]}"))
+    return bad
+
+
 def point_set(cfg):
     _, ref = expected_locs(cfg)
     return sorted(tuple(round(float(x), 9) for x in c) for c in ref.values())
@@ -135,13 +174,19 @@ def run_case(case):
         res["sample"] = dict(kind="canon", cfg=case["cfgs"][0])
     elif kind == "link":
         for item in case["items"]:
+            if item[2] == "history":
+                res["n"] += 1
+                res["nontrivial"] += 1
+                for clause, detail in check_link_history(item[0], item[1], item[3]):
+                    res["violations"].append(viol(dict(kind="link_delivery", how=clause), f"Output({item[0]}) -> Input({item[1]}) static={item[3]}: {clause} {detail[:160]}", dict(kind="link", items=[list(item)])))
+                continue
             c1, c2, ta, mk = item[:4]
             un = tuple(item[4]) if len(item) > 4 else ("m", "m")
             res["n"] += 1
             res["nontrivial"] += 1 if c1 != c2 else 0
             for clause, detail in check_link(c1, c2, ta, mk, un):
                 res["violations"].append(viol(dict(kind="link_delivery", how=clause), f"Output({c1}, {un[0]}) -> Input({c2}, {un[1]}) time_axis={ta} masked={mk}: {clause} {detail[:200]}", dict(kind="link", items=[[c1, c2, ta, mk, list(un)]])))
-        res["sample"] = dict(kind="link", src=case["items"][0][0], dst=case["items"][0][1], time_axis=case["items"][0][2], masked=case["items"][0][3])
+        res["sample"] = dict(kind="link", src=case["items"][0][0], dst=case["items"][0][1], variant=str(case["items"][0][2]), flag=case["items"][0][3])
     else:
         for c1, c2 in case["items"]:
             res["n"] += 1
@@ -189,6 +234,8 @@ def run(tier, seed, agg):
                         links.append([cfg_of(cls, dim, loc, l1), cfg_of(cls, dim, loc, l2), ta, mk])
                     compat.append([cfg_of(cls, dim, loc, l1), cfg_of(cls, dim, loc, l2)])
                     if cls == "uniform" and dim < 3:
+                        links.append([cfg_of(cls, dim, loc, l1), cfg_of(cls, dim, loc, l2), "history", False])
+                        links.append([cfg_of(cls, dim, loc, l1), cfg_of(cls, dim, loc, l2), "history", True])
                         # re-layout and unit conversion on the same link
                         links.append([cfg_of(cls, dim, loc, l1), cfg_of(cls, dim, loc, l2), True, False, ["m", "km"]])
                         links.append([cfg_of(cls, dim, loc, l1), cfg_of(cls, dim, loc, l2), False, True, ["km", "m"]])
